@@ -56,6 +56,14 @@ Expected(p, in) ==
       [] p.f = "ccm_enc"      -> LET r == CcmEnc(T, p.c, p.key, p.iv, p.aad, in, p.taglen) IN OK(r.ct \o r.tag)
       [] p.f = "ccm_dec"      -> IF Len(in) < p.taglen THEN FAIL
                                  ELSE CcmDec(T, p.c, p.key, p.iv, p.aad, Take(in, Len(in) - p.taglen), Drop(in, Len(in) - p.taglen))
+      [] p.f = "zuc_ks"       -> OK(KsBytes(T, "zuc", p.key, p.iv, 4 * p.nwords))
+      [] p.f = "zuc256_ks"    -> OK(KsBytes(T, "zuc256", p.key, p.iv, 4 * p.nwords))
+      [] p.f = "zuc_enc"      -> OK(ZucEnc(T, p.key, p.iv, in))
+      [] p.f = "eea3"         -> OK(Eea3(T, p.key, p.count4, p.bearer, p.dir, p.nbits, in))
+      [] p.f = "eia3"         -> OK(Eia3(T, p.key, p.count4, p.bearer, p.dir, p.nbits, in))
+      [] p.f = "zuc_mac"      -> OK(EiaCore(T, p.key, p.iv, p.nbits, in))
+      [] p.f = "zuc256_mac"   -> OK(Zuc256Mac(T, p.key, p.iv, p.macbits, p.nbits, in))
+      [] p.f = "chacha20_ks"  -> OK(ChaChaKs(T, p.key, p.counter, p.iv, p.nwords))
       [] p.f = "cbc_hmac_enc" -> OK(CbcHmacEnc(T, p.key, p.mackey, p.iv, p.aad, in))
       [] p.f = "cbc_hmac_dec" -> CbcHmacDec(T, p.key, p.mackey, p.iv, p.aad, in)
       [] p.f = "ctr_hmac_enc" -> OK(CtrHmacEnc(T, p.key, p.mackey, p.iv, p.aad, in))
